@@ -891,6 +891,7 @@ __ywd_diff(dt_ywd_t d1, dt_ywd_t d2)
 {
 /* compute d2 - d1 entirely in terms of ymd but express the result as yd */
 	struct dt_ddur_s res = dt_make_ddur(DT_DURYWD, 0);
+	signed int nw;
 	signed int tgtd;
 	signed int tgtw;
 	signed int tgty;
@@ -905,19 +906,23 @@ __ywd_diff(dt_ywd_t d1, dt_ywd_t d2)
 
 	/* first compute the difference in years */
 	tgty = (d2.y - d1.y);
-	/* ... and weeks */
-	tgtw = (d2.c - d1.c);
-	/* ... oh, and days, too */
+	/* ... and days */
 	tgtd = (d2.w ?: 7) - (d1.w ?: 7);
+	/* ... and weeks since the anniversary week in d2's year,
+	 * week 53 has its anniversary in the last week of a short year */
+	nw = __get_isowk(d2.y);
+	tgtw = d2.c - (d1.c <= nw ? d1.c : nw);
 
+	if (tgtw * (signed int)GREG_DAYS_P_WEEK + tgtd < 0) {
+		/* not there yet, go by last year's anniversary */
+		tgty--;
+		nw = __get_isowk(d2.y - 1U);
+		tgtw = nw - (d1.c <= nw ? d1.c : nw) + d2.c;
+	}
 	/* add carry */
 	if (tgtd < 0) {
 		tgtw--;
 		tgtd += GREG_DAYS_P_WEEK;
-	}
-	if (tgtw < 0) {
-		tgty--;
-		tgtw += __get_isowk(d1.y + tgty);
 	}
 
 	/* fill in the results */
